@@ -29,117 +29,6 @@ import SymbolVerif.Generated.C10Consts
 namespace SymbolVerif.C10
 open SymbolVerif SymbolVerif.Bytes SymbolVerif.Codec SymbolVerif.Sdk SymbolVerif.Sdk.Descriptor
 
-/-! ### side conditions on a schema (decided for the shipped schemas at the end of this file) -/
-
-/-- declaration names are pairwise distinct, and a type that registers with a factory is concrete -/
-def schemaOk (S : Schema) : Bool :=
-  decide (S.map (·.1)).Nodup &&
-  S.all fun e => match e.2 with
-    | .struct d => !d.base.isSome || !d.abstract
-    | _ => true
-
-theorem schemaOk_names {S : Schema} (h : schemaOk S = true) : (S.map (·.1)).Nodup := by
-  simp only [schemaOk, Bool.and_eq_true, decide_eq_true_eq] at h
-  exact h.1
-
-theorem schemaOk_child {S : Schema} (h : schemaOk S = true) {b n : String} {d : StructDef}
-    (hc : (n, d) ∈ S.children b) : S.find n = some (.struct d) ∧ d.abstract = false := by
-  refine ⟨children_find (schemaOk_names h) hc, ?_⟩
-  simp only [schemaOk, Bool.and_eq_true, List.all_eq_true] at h
-  unfold Schema.children at hc
-  rw [List.mem_filterMap] at hc
-  obtain ⟨⟨n', t⟩, hin, hf⟩ := hc
-  cases t with
-  | struct d' =>
-    simp only at hf
-    split at hf
-    · rename_i hb
-      simp only [Option.some.injEq, Prod.mk.injEq] at hf
-      obtain ⟨rfl, rfl⟩ := hf
-      have := h.2 _ hin
-      simp only [Bool.or_eq_true, Bool.not_eq_true'] at this
-      rcases this with h1 | h2
-      · have : d'.base = some b := by simpa using hb
-        simp [this] at h1
-      · exact h2
-    · cases hf
-  | int w s => simp at hf
-  | bytes k => simp at hf
-  | enum w s bw ms => simp at hf
-
-/-- the resolved type of a successful `resolve` is a concrete struct of the schema -/
-theorem resolve_struct {cfg : Config} (hS : schemaOk cfg.schema = true) {embedded : Bool} {desc : List (String × DVal)}
-    {ty : String} {d : StructDef} (h : resolve cfg embedded desc = .ok (ty, d)) :
-    cfg.schema.find ty = some (.struct d) ∧ d.abstract = false := by
-  obtain ⟨base, name, -, -, hc⟩ := resolve_ok h
-  exact schemaOk_child hS (createByName_mem hc)
-
-/-! ### what `create` does after copying the descriptor -/
-
-/-- members that `create` computes itself after `create_from_factory` -/
-def computedAfter (cfg : Config) (n : String) : Bool :=
-  (cfg.idAutofill && n == "id") || (cfg.messageHack && n == "message")
-
-/-- after copying, `create` changes nothing but: the order of keyed arrays and nested objects (autosort), the `id`
-    (symbol) and the transfer `message` (nem) -/
-theorem finish_get {p : Prims} {cfg : Config} {autosort : Bool} {ty : String} {d : StructDef} {st : St} {v : Val}
-    (hfind : cfg.schema.find ty = some (.struct d)) (habs : d.abstract = false)
-    (h : finish p cfg autosort ty d st = .ok v) :
-    ∃ vs, v = .struct ty vs ∧ vs.map (·.1) = st.vs.map (·.1) ∧
-      ∀ n w, computedAfter cfg n = false → Val.get st.vs n = some w →
-        (autosort = false ∨ isAtom w = true) → Val.get vs n = some w := by
-  obtain ⟨vs0, vs1, vs2, h0, h1, h2, hv⟩ := finish_ok h
-  -- step 0: the message hack
-  have names0 : vs0.map (·.1) = st.vs.map (·.1) ∧
-      ∀ n, (cfg.messageHack = true → n ≠ "message") → Val.get vs0 n = Val.get st.vs n := by
-    cases hm : cfg.messageHack with
-    | false =>
-      simp only [hm, Bool.false_eq_true, if_false, Except.ok.injEq] at h0
-      subst h0; exact ⟨rfl, fun _ _ => rfl⟩
-    | true =>
-      simp only [hm, if_true] at h0
-      rcases messageHack_effect h0 with rfl | ⟨mv, rfl⟩
-      · exact ⟨rfl, fun _ _ => rfl⟩
-      · exact ⟨names_assign _ _ _, fun n hn => get_assign_ne _ _ _ _ (hn rfl)⟩
-  -- step 1: autosort
-  have names1 : vs1.map (·.1) = vs0.map (·.1) ∧
-      ∀ n w, Val.get vs0 n = some w → (autosort = false ∨ isAtom w = true) → Val.get vs1 n = some w := by
-    rcases h1 with ⟨_, rfl⟩ | ⟨hs, -, t, hsort⟩
-    · exact ⟨rfl, fun _ _ hg _ => hg⟩
-    · obtain ⟨vs', hv', hn', hatoms, -⟩ := sort_effect hfind habs hsort
-      simp only [Val.struct.injEq] at hv'
-      obtain ⟨-, rfl⟩ := hv'
-      refine ⟨hn', fun n w hg hor => ?_⟩
-      rcases hor with hf | ha
-      · rw [hs] at hf; cases hf
-      · exact hatoms n w hg ha
-  -- step 2: id autofill
-  have names2 : vs2.map (·.1) = vs1.map (·.1) ∧
-      ∀ n, (cfg.idAutofill = true → n ≠ "id") → Val.get vs2 n = Val.get vs1 n := by
-    cases hi : cfg.idAutofill with
-    | false =>
-      simp only [hi, Bool.false_eq_true, if_false, Except.ok.injEq] at h2
-      subst h2; exact ⟨rfl, fun _ _ => rfl⟩
-    | true =>
-      simp only [hi, if_true] at h2
-      rcases autofillIds_effect h2 with rfl | ⟨i, rfl⟩
-      · exact ⟨rfl, fun _ _ => rfl⟩
-      · exact ⟨names_assign _ _ _, fun n hn => get_assign_ne _ _ _ _ (hn rfl)⟩
-  refine ⟨vs2, hv, by rw [names2.1, names1.1, names0.1], ?_⟩
-  intro n w hc hg hor
-  simp only [computedAfter, Bool.or_eq_false_iff, Bool.and_eq_false_iff] at hc
-  have hid : cfg.idAutofill = true → n ≠ "id" := by
-    intro hi; rcases hc.1 with h | h
-    · rw [hi] at h; cases h
-    · simpa using h
-  have hmsg : cfg.messageHack = true → n ≠ "message" := by
-    intro hi; rcases hc.2 with h | h
-    · rw [hi] at h; cases h
-    · simpa using h
-  rw [names2.2 n hid]
-  apply names1.2 n w _ hor
-  rw [names0.2 n hmsg]; exact hg
-
 /-! ### the main theorem -/
 
 /-- **Every described member holds its coerced value, every other member its constructor default.**
@@ -192,15 +81,6 @@ theorem create_holds_described {p : Prims} {cfg : Config} (hS : schemaOk cfg.sch
 /-! ### the forced network, the type constants -/
 
 /-! ### the forced network, the type constants -/
-
-theorem coerce_enum_int_ok {cfg : Config} {top : Bool} {ety : String} {w : Nat} {sg : Bool} {ms : List (String × Int)}
-    {i : Int} {cv : Val} (hfind : cfg.schema.find ety = some (.enum w sg false ms))
-    (h : coerce cfg top true (.ty ety) (.int i) = .ok cv) : cv = .int i ∧ enumAdmits false ms i = true := by
-  rw [coerce_int_eq] at h
-  by_cases hadm : enumAdmits false ms i = true
-  · simp [coerceAtom, ruleOf, hfind, hadm] at h
-    exact ⟨h.symm, hadm⟩
-  · simp [coerceAtom, ruleOf, hfind, hadm] at h
 
 /-- **The network is the facade's.** Whatever a descriptor (a dict: keys pairwise distinct) says under `network`, the
     member `network` of the created transaction holds the facade's identifier, which is a member of `NetworkType` —
@@ -275,73 +155,6 @@ theorem create_type_version_constants {p : Prims} {cfg : Config} (hS : schemaOk 
 
 /-! ### rejection -/
 
-/-- if some entry of the processed descriptor is refused by `copy_to` whatever the state, `create` raises -/
-theorem create_error_of_bad_entry {p : Prims} {cfg : Config} {autosort embedded : Bool} {desc : List (String × DVal)}
-    (key : String) (dv : DVal) (hmem : (key, dv) ∈ withNetwork cfg desc)
-    (hbad : ∀ ty d, resolve cfg embedded (withNetwork cfg desc) = .ok (ty, d) →
-      ∀ st, ∃ e, stepEntry cfg ty d true key dv st = .error e) :
-    ∃ e, create p cfg autosort embedded desc = .error e := by
-  unfold create build
-  cases hr : resolve cfg embedded (withNetwork cfg desc) with
-  | error e => exact ⟨e, rfl⟩
-  | ok r =>
-    obtain ⟨ty, d⟩ := r
-    simp only
-    cases hf : freshMembers cfg.schema ty with
-    | error e => exact ⟨e, rfl⟩
-    | ok fresh =>
-      simp only
-      obtain ⟨e, he⟩ := copyEntries_error_of_bad (withNetwork cfg desc) key dv hmem (hbad ty d hr) { vs := fresh }
-      rw [he]
-      exact ⟨e, rfl⟩
-
-theorem stepEntry_unknown {cfg : Config} {ty : String} {d : StructDef} {key : String} {dv : DVal}
-    (hk : key ≠ "type") (hu : classify cfg ty d key = .unknown) :
-    ∀ st, ∃ e, stepEntry cfg ty d true key dv st = .error e := by
-  intro st
-  unfold stepEntry
-  have : (true && key == "type") = false := by simpa using hk
-  simp only [this, Bool.false_eq_true, if_false, hu]
-  split <;> exact ⟨_, rfl⟩
-
-theorem stepEntry_coerce_error {cfg : Config} {ty : String} {d : StructDef} {key : String} {dv : DVal} {f : Field}
-    {hinted : Bool} {e0 : E} (hk : key ≠ "type") (hc : classify cfg ty d key = .member f hinted)
-    (he : coerce cfg true hinted (slotOf f.kind) dv = .error e0) :
-    ∀ st, ∃ e, stepEntry cfg ty d true key dv st = .error e := by
-  intro st
-  unfold stepEntry
-  have : (true && key == "type") = false := by simpa using hk
-  simp only [this, Bool.false_eq_true, if_false, hc, he]
-  split <;> exact ⟨_, rfl⟩
-
-/-- a key for which `hasattr(instance, key)` is false -/
-theorem classify_unknown_of_not_attr {cfg : Config} {ty : String} {d : StructDef} {key : String}
-    (h : key ∉ attrNames cfg ty d) : classify cfg ty d key = .unknown := by
-  unfold attrNames at h
-  simp only [List.mem_append, not_or] at h
-  obtain ⟨⟨⟨h1, h2⟩, h3⟩, h4⟩ := h
-  unfold classify
-  split
-  · rename_i f hf
-    exfalso; apply h1
-    rw [List.mem_map]
-    exact ⟨f, List.mem_of_find?_eq_some hf, by simpa using List.find?_some hf⟩
-  · split
-    · rename_i f hf
-      exfalso; apply h2
-      rw [List.mem_map]
-      exact ⟨f, List.mem_of_find?_eq_some hf, by simpa using List.find?_some hf⟩
-    · split
-      · rename_i hsz
-        exfalso; apply h3
-        have : key = "size" := by simpa using hsz
-        simp [this]
-      · split
-        · rename_i hc
-          exfalso; apply h4
-          simpa using hc
-        · rfl
-
 /-- **Unknown members are rejected.** A descriptor with a key (other than `type`, and `network`, which the factory
     overwrites) that names no attribute of the class the descriptor names is refused. -/
 theorem unknown_key_rejected {p : Prims} {cfg : Config} {autosort embedded : Bool} {desc : List (String × DVal)}
@@ -380,15 +193,6 @@ theorem missing_type_rejected {p : Prims} {cfg : Config} {autosort embedded : Bo
   unfold create build resolve
   rw [lookupKey_withNetwork (by decide), hb, ht]
 
-/-- `create_by_name` knows a name exactly when some child of the factory type is called so in snake case -/
-theorem createByName_none_iff (S : Schema) (base name : String) :
-    createByName S base name = none ↔ ∀ c ∈ S.children base, skipEmbedded (snake c.1) ≠ name := by
-  unfold createByName
-  rw [List.getLast?_eq_none_iff, List.filter_eq_nil_iff]
-  constructor
-  · intro h c hc; simpa using h c hc
-  · intro h c hc; simpa using h c hc
-
 /-- **Unknown enum names are rejected**: a `str` for an enum member that is not the lower-case name of a member of the
     enum (so also every name in upper or mixed case, every prefix, the empty string). -/
 theorem unknown_enum_name_rejected {p : Prims} {cfg : Config} {autosort embedded : Bool} {desc : List (String × DVal)}
@@ -411,7 +215,7 @@ theorem unknown_flag_rejected {p : Prims} {cfg : Config} {autosort embedded : Bo
     (hflags : ∀ ty d, resolve cfg embedded (withNetwork cfg desc) = .ok (ty, d) →
       ∃ f ety w sg ms, classify cfg ty d key = .member f true ∧ slotOf f.kind = .ty ety ∧
         cfg.schema.find ety = some (.enum w sg true ms) ∧
-        ∃ part ∈ s.splitOn " ", part ≠ "none" ∧ ∀ m ∈ ms, m.1.toLower ≠ part) :
+        ∃ part ∈ splitBlank s, part ≠ "none" ∧ ∀ m ∈ ms, m.1.toLower ≠ part) :
     ∃ e, create p cfg autosort embedded desc = .error e := by
   apply create_error_of_bad_entry key (.str s) (mem_withNetwork hmem hn)
   intro ty d hr
@@ -420,9 +224,6 @@ theorem unknown_flag_rejected {p : Prims} {cfg : Config} {autosort embedded : Bo
   apply stepEntry_coerce_error (e0 := e) hk hcl
   rw [hslot, coerce_str_eq]
   simp only [coerceAtom, if_true, ruleOf, hfind, enumByName, he]
-
-theorem inRange_unsigned_iff (w : Nat) (i : Int) : inRange w false i = true ↔ 0 ≤ i ∧ i < ((256 ^ w : Nat) : Int) := by
-  simp [inRange]
 
 /-- **Out-of-range numbers are rejected** for every member of an integer type with a name (`Amount`, `Timestamp`,
     `MosaicNonce`, …: all of them have a parser): an `int` outside the range of the type's width and sign. -/
@@ -481,28 +282,6 @@ theorem wrong_length_bytes_rejected {p : Prims} {cfg : Config} {autosort embedde
 
 /-! ### autosort -/
 
-theorem sortable_keyed {S : Schema} {d : StructDef} {vs : List (String × Val)} (h : sortable S d vs = true)
-    {f : Field} {elem : String} {m : ArrMode} {al : Nat} {pl : Bool} {key : String}
-    (hf : f ∈ d.fields) (hk : f.kind = .array elem m al pl (some key)) (hc : f.cond = none) :
-    ∃ l, Val.get vs f.name = some (.arr l) := by
-  unfold sortable at h
-  rw [List.all_eq_true] at h
-  have hcar : f ∈ carrying d := by
-    unfold carrying
-    rw [List.mem_filter]
-    exact ⟨hf, by rw [hk]; rfl⟩
-  have := h f hcar
-  rw [hk, hc] at this
-  cases hg : Val.get vs f.name with
-  | none => simp [hg] at this
-  | some v =>
-    cases v with
-    | arr l => exact ⟨l, rfl⟩
-    | int i => simp [hg] at this
-    | bytes b => simp [hg] at this
-    | struct t fs => simp [hg] at this
-    | none => simp [hg] at this
-
 /-- **With automatic sorting on, keyed arrays come out in canonical order.** For every unconditional array member with a
     sort key, the created transaction holds a list whose keys (the declared comparer, `sortKeyOf`) are ascending; it is
     `sorted(…)` of what the descriptor produced (a permutation of it, `sortByKey_zip_perm` of `Proofs/Codec/Sort.lean`), and
@@ -548,17 +327,6 @@ theorem autosort_canonical {p : Prims} {cfg : Config} (hS : schemaOk cfg.schema 
         rw [get_assign_ne _ _ _ _ hne]; exact hget1
 
 /-! ### ids -/
-
-theorem namespaceIdFor_assign_id (p : Prims) (S : Schema) (vs : List (String × Val)) (x : Val) :
-    namespaceIdFor p S (assign vs "id" x) = namespaceIdFor p S vs := by
-  unfold namespaceIdFor
-  rw [get_assign_ne _ _ _ _ (by decide : "registration_type" ≠ "id"),
-    get_assign_ne _ _ _ _ (by decide : "parent_id" ≠ "id"), get_assign_ne _ _ _ _ (by decide : "name" ≠ "id")]
-
-theorem mosaicIdFor_assign_id (p : Prims) (cfg : Config) (vs : List (String × Val)) (x : Val) :
-    mosaicIdFor p cfg (assign vs "id" x) = mosaicIdFor p cfg vs := by
-  unfold mosaicIdFor
-  rw [get_assign_ne _ _ _ _ (by decide : "signer_public_key" ≠ "id"), get_assign_ne _ _ _ _ (by decide : "nonce" ≠ "id")]
 
 /-- **Namespace and mosaic ids are filled in** (symbol). In the created transaction, if `type` is
     `NAMESPACE_REGISTRATION` the member `id` is `generate_namespace_id(name, parent)` — `namespaceIdFor` reads `name`,
@@ -720,18 +488,6 @@ def configOk (cfg : Config) : Bool :=
    | none => true) &&
   !computedAfter cfg "network" && !computedAfter cfg "type" && !computedAfter cfg "version"
 
-theorem resolve_child {cfg : Config} {embedded : Bool} {desc : List (String × DVal)} {ty : String} {d : StructDef}
-    (h : resolve cfg embedded desc = .ok (ty, d)) :
-    (ty, d) ∈ cfg.schema.children cfg.txBase ∨ ∃ b, cfg.embBase = some b ∧ (ty, d) ∈ cfg.schema.children b := by
-  obtain ⟨base, name, hb, -, hc⟩ := resolve_ok h
-  cases embedded with
-  | false =>
-    simp only [Bool.false_eq_true, if_false, Option.some.injEq] at hb
-    subst hb; left; exact createByName_mem hc
-  | true =>
-    simp only [if_true] at hb
-    right; exact ⟨base, hb, createByName_mem hc⟩
-
 theorem configOk_type {cfg : Config} (hcfg : configOk cfg = true) {embedded : Bool} {desc : List (String × DVal)}
     {ty : String} {d : StructDef} (h : resolve cfg embedded desc = .ok (ty, d)) : typeOk cfg (ty, d) = true := by
   simp only [configOk, Bool.and_eq_true] at hcfg
@@ -799,12 +555,16 @@ open SymbolVerif.Generated.C10 in
 /-- … and so does the nem configuration -/
 theorem nem_config_ok : ∀ id ∈ nemNetworkIdentifiers, configOk (nemConfig id) = true := by decide +kernel
 
-/-! ### non-vacuity: the theorems' hypotheses are met by concrete descriptors on the shipped configurations -/
+/-! ### non-vacuity: the theorems' hypotheses are met by concrete descriptors on the shipped configurations
+
+(Kernel evaluation of `create`; arrays of two or more elements are not sorted here because `List.mergeSort` is defined
+by well-founded recursion, which the kernel unfolds extremely slowly — sorting is exercised by the correspondence check
+and characterised by `autosort_canonical`.) -/
 
 section Examples
 open SymbolVerif.Generated.C10
 
-/-- stand-ins for the primitives (the examples below do not depend on hash values) -/
+/-- stand-ins for the primitives (the examples do not depend on hash values) -/
 def examplePrims : Prims :=
   { sha3_256 := fun b => b ++ zeros 32, ripemd160 := fun b => b.take 20, transform := fun _ b => b, validUtf8 := fun _ => true }
 
@@ -836,42 +596,54 @@ def transfer : List (String × DVal) := [
   ("mosaics", .list [.dict [("mosaic_id", .int 9), ("amount", .int 1)], .dict [("amount", .int 2), ("mosaic_id", .int 3)]]),
   ("message", .str "hi")]
 
-/-- symbol testnet: described values, str auto-encoding, forced network, type/version constants, canonical order
-    (autosort on) / described order (off), embedded entry point, id autofill, and each kind of rejection -/
-def symbolChecks : List Bool :=
+/-- symbol testnet: described values in several forms, str auto-encoding, forced network, type/version constants,
+    described order with autosort off, embedded entry point, flag names, id autofill -/
+def symbolAccepted : List Bool :=
   let cfg := symbolConfig 152
-  let r := create examplePrims cfg true false transfer
+  let r := create examplePrims cfg false false transfer
   let mosaicDefinition := create examplePrims cfg true true [("type", .str "mosaic_definition_transaction_v1"),
     ("flags", .str "supply_mutable none revokable"), ("nonce", .int 7), ("id", .int 1)]
   [ intMember r "fee" 5, intMember r "network" 152, intMember r "type" 16724, intMember r "version" 1,
     intMember r "deadline" 0,
     (match member? r "message" with | some (.bytes [104, 105]) => true | _ => false),
     (match member? r "signer_public_key" with | some (.bytes b) => b.length == 32 && b.take 2 == [0x00, 0x11] | _ => false),
-    mosaicsOf r == [3, 9],
-    mosaicsOf (create examplePrims cfg false false transfer) == [9, 3],
+    mosaicsOf r == [9, 3],
     intMember mosaicDefinition "flags" 9,
     (match member? mosaicDefinition "id" with | some (.int i) => i != 1 | _ => false),
     (match mosaicDefinition with | .ok (.struct "EmbeddedMosaicDefinitionTransactionV1" _) => true | _ => false),
-    rejected (create examplePrims cfg true false (transfer ++ [("fe", .int 1)])),
-    rejected (create examplePrims cfg true false (transfer ++ [("fee_computed", .int 1)])),
+    !rejected (create examplePrims cfg true false [("type", .str "account_key_link_transaction_v1"), ("link_action", .str "link")]) ]
+
+example : symbolAccepted.all id = true := by decide +kernel
+
+/-- … and each kind of rejection -/
+def symbolRejected : List Bool :=
+  let cfg := symbolConfig 152
+  let t := ("type", DVal.str "transfer_transaction_v1")
+  [ rejected (create examplePrims cfg true false [t, ("fe", .int 1)]),
+    rejected (create examplePrims cfg true false [t, ("fee_computed", .int 1)]),
     rejected (create examplePrims cfg true false [("type", .str "xtransfer_transaction_v1")]),
     rejected (create examplePrims cfg true false [("fee", .int 1)]),
-    rejected (create examplePrims cfg true false [("type", .str "transfer_transaction_v1"), ("fee", .int (2 ^ 64))]),
-    rejected (create examplePrims cfg true false [("type", .str "transfer_transaction_v1"), ("fee", .int (-1))]),
+    rejected (create examplePrims cfg true false [t, ("fee", .int (2 ^ 64))]),
+    rejected (create examplePrims cfg true false [t, ("fee", .int (-1))]),
     rejected (create examplePrims cfg true false [("type", .str "account_key_link_transaction_v1"), ("link_action", .str "LINK")]),
-    !rejected (create examplePrims cfg true false [("type", .str "account_key_link_transaction_v1"), ("link_action", .str "link")]),
     rejected (create examplePrims cfg true false [("type", .str "mosaic_definition_transaction_v1"), ("flags", .str "supply_mutable  revokable")]),
-    rejected (create examplePrims cfg true false [("type", .str "transfer_transaction_v1"), ("signer_public_key", .bytes (zeros 31))]),
-    -- findings: non-member attributes pass `hasattr`
-    !rejected (create examplePrims cfg true false (transfer ++ [("TYPE_HINTS", .dict [])])),
-    !rejected (create examplePrims cfg true false (transfer ++ [("serialize", .int 1)])),
-    intMember (create examplePrims cfg true false [("type", .str "transfer_transaction_v1"), ("_fee", .codec "Amount" (.int 7))]) "fee" 7,
-    -- a plain integer member is not range checked by create
-    intMember (create examplePrims cfg true false [("type", .str "transfer_transaction_v1"), ("version", .int 300)]) "version" 300 ]
+    rejected (create examplePrims cfg true false [t, ("signer_public_key", .bytes (zeros 31))]) ]
 
-example : symbolChecks.all id = true := by decide +kernel
+example : symbolRejected.all id = true := by decide +kernel
 
-/-- nem testnet: nested dict, SDK address object converted to its text form, transfer message hack, no embedded entry point -/
+/-- the findings: non-member attributes pass `hasattr`; a plain integer member is not range checked by `create` -/
+def symbolLenient : List Bool :=
+  let cfg := symbolConfig 152
+  let t := ("type", DVal.str "transfer_transaction_v1")
+  [ !rejected (create examplePrims cfg true false [t, ("TYPE_HINTS", .dict [])]),
+    !rejected (create examplePrims cfg true false [t, ("serialize", .int 1)]),
+    intMember (create examplePrims cfg true false [t, ("_fee", .codec "Amount" (.int 7))]) "fee" 7,
+    intMember (create examplePrims cfg true false [t, ("version", .int 300)]) "version" 300 ]
+
+example : symbolLenient.all id = true := by decide +kernel
+
+/-- nem testnet: nested dict, SDK address object converted to its text form, transfer message hack, no embedded entry
+    point, misspelt key inside a nested dict -/
 def nemChecks : List Bool :=
   let cfg := nemConfig 152
   let r := create examplePrims cfg true false [("type", .str "transfer_transaction_v2"), ("amount", .int 10),
